@@ -133,6 +133,28 @@ struct FindPrototypeByCallableFromIndex <
 	};
 };
 
+// Remove the first N types from a HeterTuple
+template <int N, typename PrototypeList_>
+struct DropHeterTuple;
+
+template <int N, typename First, typename ...Others>
+struct DropHeterTuple <N, HeterTuple<First, Others...> >
+{
+	using Type = typename DropHeterTuple<N - 1, HeterTuple<Others...> >::Type;
+};
+
+template <typename First, typename ...Others>
+struct DropHeterTuple <0, HeterTuple<First, Others...> >
+{
+	using Type = HeterTuple<First, Others...>;
+};
+
+template <int N>
+struct DropHeterTuple <N, HeterTuple<> >
+{
+	using Type = HeterTuple<>;
+};
+
 template <typename PrototypeList_, typename Callable, template <typename> class ArgTransformer = FindPrototypeDefaultArgTransformer>
 struct FindPrototypeByCallable : public FindPrototypeByCallableFromIndex <0, PrototypeList_, Callable, ArgTransformer>
 {
